@@ -254,7 +254,10 @@ def plan(tier, seed):
         else:
             pre += {"star4": ["order % 4 == 0"], "lonepair": ["order % 4 == 0"], "dbond": ["order % 8 == 0"],
                     "star5": ["order % 30 == 0", "chg in (0, 2)"], "star6": ["order % 240 == 0", "chg in (0, 2)"]}.get(n, [])
-        units.append(Sel(name=f"{n}_{c}", func="vp.props.C05:template", params=params, pre=pre, shard_by=[], timeout=1500, nontrivial="par == 0"))
+        if n == "star6" and c == "SCRG":
+            pre += ["chg == 0", "lig in (0, 1, 3)"]      # one octahedral SCRG instance costs about a CPU-minute (720-element groups x label modes)
+        units.append(Sel(name=f"{n}_{c}", func="vp.props.C05:template", params=params, pre=pre, shard_by=[], timeout=1500, nontrivial="par == 0",
+                         min_shard=4 if n in ("star5", "star6", "twocentre") else 48))
     return units
 
 
